@@ -235,3 +235,104 @@ def rule_field_order(ctx):
         ctx.report("order:ctor:tuple", ctx.where(tb.file, tb.node), "tuple constructor body changed", {})
     if [tx(x) for x in T.templates_of(sb)] != ["#return_type{#(#field_names:#vars),*}"] or "let vars=field_names" not in A.fn_text(sb):
         ctx.report("order:ctor:struct", ctx.where(sb.file, sb.node), "struct constructor body changed (`field: field` for each field in order)", {})
+
+
+def _definitely_returns_err(body):
+    """the arm body is (a block whose last statement is) `return Err(..)`"""
+    b = A.unblock(body)
+    if A.kind(b) == "Expr::Return":
+        return A.render(b).startswith("return Err(")
+    if A.kind(body) == "Expr::Block":
+        st = body["block"]["stmts"]
+        if st and A.kind(st[-1]) == "Stmt::Expr":
+            return A.render(st[-1]["0"]).startswith("return Err(")
+    return False
+
+
+def rule_validate_arity(ctx):
+    """ARITY: `FieldsExt::validate_type` hands out the element types of a listed tuple type (`#[from((A, B))]`, `#[into((A, B))]`) for a per-field zip only when their number equals the number of fields: for more than one field, both a shorter and a longer tuple are definite errors (zip would silently drop the surplus component / leave fields unconverted), a non-tuple is an error, and only `Ordering::Equal` falls through."""
+    fn = A.get_fn(ctx.files, "impl/src/utils.rs", "fields_ext::FieldsExt::validate_type")
+    f = fn.file
+    w = ctx.where(f, fn.node)
+    cmpm = None
+    for mt, ps in A.find(fn.block, "Expr::Match"):
+        r = A.render(mt["expr"])
+        if re.fullmatch(r"self\.len\(\)\.cmp\(&\w+\.len\(\)\)", r) or re.fullmatch(r"\w+\.len\(\)\.cmp\(&self\.len\(\)\)", r):
+            cmpm = (mt, ps, r)
+    ctx.instance("arity:compare")
+    if cmpm is None:
+        # accepted alternative: `if self.len() != elems.len() { return Err(..) }`
+        t = A.fn_text(fn)
+        if A.wsearch(t, "if self.len()!=elems.len(){return Err(") is None and A.wsearch(t, "if elems.len()!=self.len(){return Err(") is None:
+            ctx.report("arity:compare", w, "`validate_type` no longer compares the number of fields with the number of listed tuple elements before handing the elements out for a per-field zip", {})
+        return
+    mt, ps, r = cmpm
+    seen = {}
+    for arm in mt["arms"]:
+        pats = arm["pat"]["cases"] if A.kind(arm["pat"]) == "Pat::Or" else [arm["pat"]]
+        for p in pats:
+            nm = A.render_pat(p).split("::")[-1]
+            seen[nm] = (arm, len(pats))
+    for v in ("Greater", "Less"):
+        ctx.instance(f"arity:{v}")
+        a = seen.get(v) or seen.get("_")
+        if a is None or not _definitely_returns_err(a[0]["body"]):
+            which = "longer" if (v == "Less") == r.startswith("self.len()") else "shorter"
+            ctx.report(
+                f"arity:{v}",
+                ctx.where(f, (a[0]["pat"] if a else mt["expr"])),
+                f"`validate_type`: a listed tuple type {which} than the field list (`{r}` is `{v}`) is not a definite `return Err(..)`: "
+                + ("`#[from((i8, i16, i32))] struct Pair(i32, i64)` is accepted and `Pair::from((1, 2, 3))` silently drops the third component" if which == "longer" else "fields are left without a listed type"),
+                {},
+            )
+    ctx.instance("arity:Equal")
+    a = seen.get("Equal")
+    if a is None or a[1] != 1 or A.render(A.unblock(a[0]["body"])) not in ("{}", "()", ""):
+        if not (a and a[1] == 1):
+            ctx.report("arity:Equal", w, "`Ordering::Equal` no longer stands alone as the only accepted case", {})
+    # the comparison guards the zip: it sits in the `Tuple` arm taken for more than one field
+    ctx.instance("arity:scope")
+    arm = next((p for p in reversed(ps) if A.kind(p) == "Arm"), None)
+    if arm is None or "Type::Tuple" not in A.render_pat(arm["pat"]) or A.render(arm["guard"][1] if isinstance(arm.get("guard"), list) else arm.get("guard") or {}) not in ("self.len()>1",):
+        g = arm.get("guard") if arm else None
+        gr = A.render(g[1]) if isinstance(g, list) and len(g) > 1 else (A.render(g) if isinstance(g, dict) else None)
+        if arm is None or "Type::Tuple" not in A.render_pat(arm["pat"]) or gr != "self.len()>1":
+            ctx.report("arity:scope", w, f"the arity comparison no longer covers every tuple type listed for a multi-field item (arm guard `{gr}`)", {})
+
+
+def rule_into_impl_set(ctx):
+    """IMPL-SET(Into): without a struct-level `#[into(..)]` the whole-struct (tuple) conversion is generated iff *no* field carries a conversion list of its own (a `skip` does not count as one and does not excuse one): the fallback is `<per-field conversions>.iter().all(Option::is_none).then(ConversionsAttribute::default)`, the per-field conversions being the `attr.convs` of each field in order; each field-level list yields one expansion for that very field."""
+    fn = A.get_fn(ctx.files, INTO, "expand")
+    f = fn.file
+    t = A.fn_text(fn)
+    w = ctx.where(f, fn.node)
+    ctx.instance("into-set:convs-source")
+    m = A.wsearch(t, "let convs=field_attr.and_then(|attr|attr.convs);Ok(((i,f,skip),convs))")
+    u = re.search(r"let \((\w+),(\w+)\)(?::[^=]*)?=(\w+)\.into_iter\(\)\.unzip\(\)", t)
+    if m is None or u is None:
+        ctx.report("into-set:convs-source", w, "the per-field conversion lists are no longer `field_attr.and_then(|attr| attr.convs)` collected in field order and unzipped from the field triples", {})
+        return
+    fields_v, convs_v = u.group(1), u.group(2)
+    ctx.instance("into-set:fallback")
+    oe = None
+    for mc, _ in A.method_calls(fn.block, "or_else"):
+        if mc["args"] and A.kind(mc["args"][0]) == "Expr::Closure":
+            oe = A.render(A.unblock(mc["args"][0]["body"]))
+            recv = A.render(mc["receiver"])
+    ok_forms = [
+        rf"{convs_v}\.iter\(\)\.all\(Option::is_none\)",
+        rf"{convs_v}\.iter\(\)\.all\(\|(\w+)\|\1\.is_none\(\)\)",
+        rf"!{convs_v}\.iter\(\)\.any\(Option::is_some\)",
+        rf"!{convs_v}\.iter\(\)\.any\(\|(\w+)\|\1\.is_some\(\)\)",
+    ]
+    if oe is None or not any(re.fullmatch(p + r"\.then\(ConversionsAttribute::default\)\.map\(Either::Right\)", oe) for p in ok_forms):
+        ctx.report(
+            "into-set:fallback",
+            w,
+            f"the implicit whole-struct conversion is decided by `{oe}` instead of 'every field's conversion list is None' (`{convs_v}.iter().all(Option::is_none)`): "
+            "an impl outside the documented set appears (e.g. `From<Foo> for (String, f64)` although a field has its own `#[into(..)]`) or the documented one disappears",
+            {},
+        )
+    ctx.instance("into-set:per-field")
+    if A.wsearch(t, f"{fields_v}.iter().zip({convs_v}).filter_map(|(&(i,field,_),convs)|{{convs.map(|convs|Expansion{{") is None and A.wsearch(t, f"{fields_v}.iter().zip({convs_v}).filter_map(|(&(i,field,_),convs)|convs.map(|convs|Expansion{{") is None:
+        ctx.report("into-set:per-field", w, "field-level conversion lists no longer yield exactly one expansion each (zip of fields and their lists, `convs.map(..)`)", {})
